@@ -30,7 +30,8 @@ NestVals == {N(1), L(<<N(2), N(3)>>), L(<<N(4), L(<<N(5)>>)>>), L(<<>>)}
 Vals == CASE Universe = "int" -> IntVals [] Universe = "str" -> StrVals [] OTHER -> NestVals
 Items == CASE Universe = "int" -> {<<>>, <<7>>, <<7, 8>>}
            [] Universe = "str" -> {<<>>, <<"x">>, <<"x", "y">>}
-           [] OTHER -> {<<>>, <<N(7)>>, <<N(7), L(<<N(8)>>)>>}
+           \* a single item that is itself a list (or the empty list) must arrive as ONE item
+           [] OTHER -> {<<>>, <<N(7)>>, <<N(7), L(<<N(8)>>)>>, <<L(<<N(8), N(9)>>)>>, <<L(<<>>)>>}
 Idx == {-5, -2, -1, 0, 1, 2, 3, 5}
 OptIdx == Idx \cup {Omit}
 
@@ -90,6 +91,10 @@ FirstHit(s, cb) == LET hits == {i \in 1..Len(s) : Pred(cb, s[i], i - 1, s)} IN
                    IF hits = {} THEN 0 ELSE CHOOSE i \in hits : \A j \in hits : i <= j
 RECURSIVE Fold(_, _, _)
 Fold(s, acc, i) == IF i > Len(s) THEN acc ELSE Fold(s, acc * 10 + s[i], i + 1)     \* order-sensitive accumulator
+\* the reduce callback also receives the index of the current element and the array:
+\* acc * 100 + cur * 10 + index  makes a wrong index (or a wrong first element) visible
+RECURSIVE FoldIdx(_, _, _)
+FoldIdx(s, acc, i) == IF i > Len(s) THEN acc ELSE FoldIdx(s, acc * 100 + s[i] * 10 + (i - 1) + Len(s), i + 1)
 RECURSIVE FlatMap2(_)
 FlatMap2(s) == IF s = <<>> THEN <<>> ELSE <<Head(s), Head(s) * 2>> \o FlatMap2(Tail(s))
 
@@ -131,6 +136,8 @@ Callbacks ==
   \/ \E cb \in Maps : Call("map", <<"cb:" \o cb>>, [i \in 1..Len(recv) |-> MapF(cb, recv[i], i - 1, recv)], recv)
   \/ Call("reduce", <<"cb:fold", 0>>, Fold(recv, 0, 1), recv)
   \/ recv # <<>> /\ Call("reduce", <<"cb:fold", Omit>>, Fold(recv, recv[1], 2), recv)
+  \/ Len(recv) <= 3 /\ Call("reduce", <<"cb:foldidx", 0>>, FoldIdx(recv, 0, 1), recv)
+  \/ recv # <<>> /\ Len(recv) <= 3 /\ Call("reduce", <<"cb:foldidx", Omit>>, FoldIdx(recv, recv[1], 2), recv)
   \/ Call("flatMap", <<"cb:pair">>, FlatMap2(recv), recv)
   \/ Call("forEach", <<"cb:collect">>, [i \in 1..Len(recv) |-> recv[i] * 10 + (i - 1)], recv)
 
